@@ -1,4 +1,5 @@
 //! Reference models written from the RFCs (9113, 7541). No dependency on h2.
 pub mod hpack;
+pub mod http;
 pub mod huff_table;
 pub mod wire;
